@@ -103,10 +103,43 @@ func singleKeyHandleOf(hd *keyset.Handle, i int) *keyset.Handle {
 
 func threads22(a1, a2, b1, b2 call) [][]call { return [][]call{{a1, a2}, {b1, b2}} }
 
+// crossOf: TWO independently built instances of the scenario's primitive with DIFFERENT keys (the setup draws fresh
+// keys every time it runs); thread 0 works on instance 0, thread 1 on instance 1. Nothing is shared between the
+// threads but package-level state of tink – a keyed cache, a scratch buffer or a lazily built table hoisted to
+// package scope – which is exactly what must not make one instance observe the other's key or data.
+func crossOf(s *scenario) *scenario {
+	return add("cross-instance-"+s.name, func() *built { return crossBuilt(s.setup(), s.setup()) })
+}
+
+func crossBuilt(b1, b2 *built) *built {
+	{
+		wrap := func(cs []call, i int) []call {
+			var out []call
+			for _, c := range cs {
+				c := c
+				out = append(out, call{fmt.Sprintf("#%d.%s", i, c.name), func(sh any) string { return c.do(sh.([2]any)[i]) }})
+			}
+			return out
+		}
+		return &built{newShared: func() any { return [2]any{b1.newShared(), b2.newShared()} },
+			threads: [][]call{wrap(b1.threads[0], 0), wrap(b2.threads[1], 1)},
+			probes:  append(wrap(b1.probes, 0), wrap(b2.probes, 1)...)}
+	}
+}
+
 // ---- AEAD ---------------------------------------------------------------------------------------------
 
 func aeadScen(name string, mk func() tink.AEAD) *scenario {
-	return add("aead-"+name, func() *built {
+	return add("aead-"+name, func() *built { return aeadBuilt(mk) })
+}
+
+// aeadCross: two AEADs of the same type with different keys, one per thread (see crossOf).
+func aeadCross(name string, t *tinkpb.KeyTemplate) *scenario {
+	return add("cross-instance-aead-"+name, func() *built { return crossBuilt(aeadBuilt(aeadFromTemplate(t)), aeadBuilt(aeadFromTemplate(t))) })
+}
+
+func aeadBuilt(mk func() tink.AEAD) *built {
+	{
 		p := mk()
 		cA := must(p.Encrypt(msgA, adA))
 		cB := must(p.Encrypt(msgB, adB))
@@ -119,7 +152,7 @@ func aeadScen(name string, mk func() tink.AEAD) *scenario {
 		return &built{newShared: func() any { return mk() },
 			threads: threads22(enc("A", msgA, adA), dec("B", cB, adB), enc("B", msgB, adB), dec("A", cA, adA)),
 			probes:  []call{dec("A", cA, adA), enc("C", msgC, nil), dec("B-wrong-ad", cB, adA)}}
-	})
+	}
 }
 
 func aeadFromTemplate(t *tinkpb.KeyTemplate) func() tink.AEAD {
@@ -134,8 +167,8 @@ func aeadFromTemplate(t *tinkpb.KeyTemplate) func() tink.AEAD {
 
 // ---- DAEAD / MAC / PRF --------------------------------------------------------------------------------
 
-func daeadScen(name string, hdf func() *keyset.Handle) {
-	add("daead-"+name, func() *built {
+func daeadScen(name string, hdf func() *keyset.Handle) *scenario {
+	return add("daead-"+name, func() *built {
 		hd := hdf()
 		mk := func() tink.DeterministicAEAD { return must(daead.New(hd)) }
 		p := mk()
@@ -176,8 +209,8 @@ func macScen(name string, hdf func() *keyset.Handle) *scenario {
 	})
 }
 
-func prfScen(name string, t *tinkpb.KeyTemplate) {
-	add("prf-"+name, func() *built {
+func prfScen(name string, t *tinkpb.KeyTemplate) *scenario {
+	return add("prf-"+name, func() *built {
 		hd := handleFrom(t)
 		mk := func() *prf.Set { return must(prf.NewPRFSet(hd)) }
 		c := func(n string, m []byte, l uint32) call {
@@ -191,8 +224,8 @@ func prfScen(name string, t *tinkpb.KeyTemplate) {
 
 // ---- signatures ---------------------------------------------------------------------------------------
 
-func sigScen(name string, hdf func() *keyset.Handle, withSign bool) {
-	add("signature-"+name, func() *built {
+func sigScen(name string, hdf func() *keyset.Handle, withSign bool) *scenario {
+	return add("signature-"+name, func() *built {
 		priv := hdf()
 		pub := must(priv.Public())
 		type pair struct {
@@ -221,12 +254,12 @@ func sigScen(name string, hdf func() *keyset.Handle, withSign bool) {
 
 // ---- hybrid -------------------------------------------------------------------------------------------
 
-func hybridScen(name string, t *tinkpb.KeyTemplate) {
-	hybridScenH(name, func() *keyset.Handle { return handleFrom(t) })
+func hybridScen(name string, t *tinkpb.KeyTemplate) *scenario {
+	return hybridScenH(name, func() *keyset.Handle { return handleFrom(t) })
 }
 
-func hybridScenH(name string, hdf func() *keyset.Handle) {
-	add("hybrid-"+name, func() *built {
+func hybridScenH(name string, hdf func() *keyset.Handle) *scenario {
+	return add("hybrid-"+name, func() *built {
 		priv := hdf()
 		pub := must(priv.Public())
 		type pair struct {
@@ -251,8 +284,8 @@ func hybridScenH(name string, hdf func() *keyset.Handle) {
 
 // ---- streaming AEAD -----------------------------------------------------------------------------------
 
-func streamScen(name string, t *tinkpb.KeyTemplate) {
-	add("streaming-"+name, func() *built {
+func streamScen(name string, t *tinkpb.KeyTemplate) *scenario {
+	return add("streaming-"+name, func() *built {
 		hd := handleFrom(t)
 		mk := func() tink.StreamingAEAD { return must(streamingaead.New(hd)) }
 		big := ref.Pattern(2, 300)
@@ -710,43 +743,48 @@ func registerScenarios() {
 			return aead.NewKMSEnvelopeAEAD2(aead.AES128GCMKeyTemplate(), kek)
 		})
 	}
-	daeadScen("aessiv", func() *keyset.Handle { return handleFrom(daead.AESSIVKeyTemplate()) })
+	crossOf(daeadScen("aessiv", func() *keyset.Handle { return handleFrom(daead.AESSIVKeyTemplate()) }))
 	macScen("hmac-sha256", func() *keyset.Handle { return handleFrom(mac.HMACSHA256Tag128KeyTemplate()) }).small = true
-	macScen("hmac-sha512", func() *keyset.Handle { return handleFrom(mac.HMACSHA512Tag256KeyTemplate()) })
-	macScen("aescmac", func() *keyset.Handle { return handleFrom(mac.AESCMACTag128KeyTemplate()) })
+	crossOf(macScen("hmac-sha512", func() *keyset.Handle { return handleFrom(mac.HMACSHA512Tag256KeyTemplate()) }))
+	crossOf(macScen("aescmac", func() *keyset.Handle { return handleFrom(mac.AESCMACTag128KeyTemplate()) }))
 	macScen("two-key-keyset", func() *keyset.Handle {
 		return twoKeyHandle(mac.AESCMACTag128KeyTemplate(), mac.HMACSHA256Tag128KeyTemplate())
 	})
-	prfScen("hmac", prf.HMACSHA256PRFKeyTemplate())
-	prfScen("hkdf", prf.HKDFSHA256PRFKeyTemplate())
-	prfScen("aescmac", prf.AESCMACPRFKeyTemplate())
-	sigScen("ecdsa-p256", func() *keyset.Handle { return handleFrom(signature.ECDSAP256KeyTemplate()) }, true)
-	sigScen("ed25519", func() *keyset.Handle { return handleFrom(signature.ED25519KeyTemplate()) }, true)
-	sigScen("rsassapss-3072", func() *keyset.Handle { return handleFrom(signature.RSA_SSA_PSS_3072_SHA256_32_F4_Key_Template()) }, true)
+	crossOf(prfScen("hmac", prf.HMACSHA256PRFKeyTemplate()))
+	crossOf(prfScen("hkdf", prf.HKDFSHA256PRFKeyTemplate()))
+	crossOf(prfScen("aescmac", prf.AESCMACPRFKeyTemplate()))
+	crossOf(sigScen("ecdsa-p256", func() *keyset.Handle { return handleFrom(signature.ECDSAP256KeyTemplate()) }, true))
+	crossOf(sigScen("ed25519", func() *keyset.Handle { return handleFrom(signature.ED25519KeyTemplate()) }, true))
+	crossOf(sigScen("rsassapss-3072", func() *keyset.Handle { return handleFrom(signature.RSA_SSA_PSS_3072_SHA256_32_F4_Key_Template()) }, true))
 	sigScen("rsassapkcs1-3072", func() *keyset.Handle { return handleFrom(signature.RSA_SSA_PKCS1_3072_SHA256_F4_Key_Template()) }, true)
-	sigScen("mldsa65", func() *keyset.Handle {
+	crossOf(sigScen("mldsa65", func() *keyset.Handle {
 		return handleFromParams(must(mldsa.NewParameters(mldsa.MLDSA65, mldsa.VariantTink)))
-	}, true)
+	}, true))
 	sigScen("composite-mldsa65-ed25519", func() *keyset.Handle {
 		return handleFromParams(must(compositemldsa.NewParameters(compositemldsa.Ed25519, compositemldsa.MLDSA65, compositemldsa.VariantTink)))
 	}, true)
 	sigScen("legacy-adapter-custom-keymanager", legacySigHandle, true)
 	macScen("legacy-adapter-custom-keymanager", legacyMACHandle)
-	sigScen("slhdsa-sha2-128s-verify", func() *keyset.Handle {
+	crossOf(sigScen("slhdsa-sha2-128s-verify", func() *keyset.Handle {
 		return handleFromParams(must(slhdsa.NewParameters(slhdsa.SHA2, 64, slhdsa.SmallSignature, slhdsa.VariantTink)))
-	}, false)
-	hybridScen("hpke-x25519", hybrid.DHKEM_X25519_HKDF_SHA256_HKDF_SHA256_AES_128_GCM_Key_Template())
+	}, false))
+	crossOf(hybridScen("hpke-x25519", hybrid.DHKEM_X25519_HKDF_SHA256_HKDF_SHA256_AES_128_GCM_Key_Template()))
 	hybridScen("hpke-p256", hybrid.DHKEM_P256_HKDF_SHA256_HKDF_SHA256_AES_256_GCM_Raw_Key_Template())
 	hybridScen("ecies-p256-gcm", hybrid.ECIESHKDFAES128GCMKeyTemplate())
-	hybridScen("ecies-p256-ctrhmac", hybrid.ECIESHKDFAES128CTRHMACSHA256KeyTemplate())
+	crossOf(hybridScen("ecies-p256-ctrhmac", hybrid.ECIESHKDFAES128CTRHMACSHA256KeyTemplate()))
 	hybridScenH("hpke-xwing", func() *keyset.Handle {
 		return handleFromParams(must(hpke.NewParameters(hpke.ParametersOpts{KEMID: hpke.X_WING, KDFID: hpke.HKDFSHA256, AEADID: hpke.AES256GCM, Variant: hpke.VariantTink})))
 	})
 	hybridScenH("hpke-mlkem768", func() *keyset.Handle {
 		return handleFromParams(must(hpke.NewParameters(hpke.ParametersOpts{KEMID: hpke.ML_KEM768, KDFID: hpke.HKDFSHA256, AEADID: hpke.AES128GCM, Variant: hpke.VariantNoPrefix})))
 	})
-	streamScen("aesgcmhkdf", streamingaead.AES128GCMHKDF4KBKeyTemplate())
-	streamScen("aesctrhmac", streamingaead.AES128CTRHMACSHA256Segment4KBKeyTemplate())
+	crossOf(streamScen("aesgcmhkdf", streamingaead.AES128GCMHKDF4KBKeyTemplate()))
+	crossOf(streamScen("aesctrhmac", streamingaead.AES128CTRHMACSHA256Segment4KBKeyTemplate()))
+	aeadCross("aesgcm", aead.AES128GCMKeyTemplate())
+	aeadCross("aesgcmsiv", aead.AES256GCMSIVKeyTemplate())
+	aeadCross("aesctrhmac", aead.AES128CTRHMACSHA256KeyTemplate())
+	aeadCross("xaesgcm", aead.XAES256GCM192BitNonceKeyTemplate())
+	aeadCross("xchacha20poly1305", aead.XChaCha20Poly1305KeyTemplate())
 	jwtMACScen()
 	jwtSigScen()
 	jwtMultiKeyScen()
